@@ -1,5 +1,4 @@
 import KG.Model.Gateway
-import KG.Spec.Names
 import KG.Spec.Identity
 import KG.Spec.Match
 import KG.Spec.LocalLimiter
@@ -129,6 +128,7 @@ def judgeStages (env : Env) (s : State) (σ : KG.Spec.LocalLimiter.SState) (r : 
      | some (p, cl) =>
        cls (!cl.cfg.denyAll) "gw.forwarded.deny-all" ++
        (match expectId env (some p) r with
+        | .answered 401 => ["gw.forwarded.unauthenticated"]
         | .answered _ => ["gw.forwarded.unapproved-identity"]
         | .forward id =>
           (KG.Spec.Identity.judge cl.cfg.token false (.forward id) [o.identity]).map (fun c => "gw.identity." ++ c.name) ++
@@ -138,7 +138,9 @@ def judgeStages (env : Env) (s : State) (σ : KG.Spec.LocalLimiter.SState) (r : 
              cls ((upstreamsOf cl i).contains o.endpoint) "gw.endpoint.not-of-first-matching-policy" ++
              cls ((Model.Endpoints.serverNames cl.cfg.servers).contains o.endpoint) "gw.endpoint.not-a-server" ++
              cls (eligible cl o.endpoint) "gw.endpoint.not-ready" ++
-             cls (admits s σ cl.cfg.name (schemaOf cl i) r.now) "gw.admitted-over-limit")))
+             cls (admits s σ cl.cfg.name (schemaOf cl i) r.now)
+               (if (KG.Spec.LocalLimiter.demand σ cl.cfg.name (schemaOf cl i)).isSome then "gw.admitted-over-limit"
+                else "gw.admitted-empty-bucket"))))
 
 /-- … and what it received must be the client's request (C04's per-part judges) -/
 def judgeFidelity (r : Request) (o : Obs) : List String :=
